@@ -84,7 +84,11 @@ gcm_make_key(const char *fam, int bits, gbuf *kd, gbuf *key, uint32_t kb, uint64
         obs o;
         uint64_t r = 0;
         if (is_api(fam)) {
-                uint64_t a[2] = { (uint64_t) key->p, (uint64_t) kd->p };
+                /* in-place expansion: the raw key sits where round key 0 goes (the first bytes of key_data) in some of the calls */
+                int inplace = obj_reuse();
+                if (inplace)
+                        memcpy(kd->p, key->p, (size_t) bits / 8);
+                uint64_t a[2] = { inplace ? (uint64_t) kd->p : (uint64_t) key->p, (uint64_t) kd->p };
                 vc_begin();
                 vc_input("key", key);
                 vc_output("key_data", kd);
